@@ -47,6 +47,9 @@ def gen(tier, rng, harness, driver):
     for name in C.run_lines([harness, "run"], ["rename.list"])[0].split(","):
         for mode in "012":
             lines.append("!rename.ok %s %s" % (name, mode))
+            if mode != "2":
+                # (the same observers, then the ADDRESS SPACE of the global variable and the function is edited: the text is the one the edits give unobserved)
+                lines.append("!edit.as %s %s" % (name, mode))
     for site in ("call", "invoke", "callbr"):
         for kind in ("func", "param", "load", "bitcast", "alias", "asm"):
             for sg, nx in (("F(v;)", 0), ("F(i32;i8)", 0), ("G(i32;p0(i8))", 0), ("G(i32;p0(i8))", 2), ("G(v;)", 1), ("F(p0(F(v;));i32)", 0)):
